@@ -20,7 +20,7 @@ K_SUPPORT = ['a3_varint_i16', 'a3_varint_i32', 'a3_varint_u32', 'a3_varint_i64',
 K_C11_W = ['c11_w_bool', 'c11_w_byte_i8', 'c11_w_i16', 'c11_w_i32', 'c11_w_i64', 'c11_w_double', 'c11_w_uuid', 'c11_w_field',
            'c11_w_containers', 'bnd_c11_w_bytes_le5']
 K_C11_R = ['c11_r_i8_bool_byte', 'c11_r_i16', 'c11_r_i32', 'c11_r_i64_double', 'c11_r_uuid']
-K_PB_MORE = ['pb_varint_chain', 'bnd_pb_merge_repeated_packed', 'bnd_pb_map_len_btree', 'bnd_pb_map_len_btree+pbdef']
+K_PB_MORE = ['pb_fixed_truncated', 'pb_varint_chain', 'bnd_pb_merge_repeated_packed', 'bnd_pb_map_len_btree', 'bnd_pb_map_len_btree+pbdef']
 K_PB = ['pb_varint_roundtrip', 'pb_varint_decode_total', 'pb_varint_decode_value', 'pb_bool', 'pb_int32', 'pb_int64', 'pb_uint32', 'pb_uint64', 'pb_sint32', 'pb_sint64',
         'pb_fixed32', 'pb_sfixed32', 'pb_float', 'pb_fixed64', 'pb_sfixed64', 'pb_double']
 
@@ -41,7 +41,7 @@ PROPS = {
                 not_covered='decided: (1) the recursive default skipper and (2) the async default skipper, each against a recursive grammar of binary-protocol values (bskip_val: structs, lists, sets, maps nested to the depth limit), with the refinement obligations that TBinaryProtocol<&mut Bytes> and TAsyncBinaryProtocol<R> (both byte orders) implement the reader contracts the skippers are verified against; (3) the compact reader\'s own skipper (added by the G4 fix) against a recursive grammar of compact-protocol values (cskip_val: varints of bounded length, bool-in-header fields, short/long field headers with the i16 delta check, short/long list headers, one-byte empty map), on top of the re-verified real bodies of the compact reader: Ok(n) <=> the input starts with a well-formed value of that type occupying n bytes, which are exactly the bytes consumed, reader state (field-id stack, last id) restored; depth 0 => Err; termination by depth. (4) the async default skipper a second time, as a generic function over the compact reader contract, against the same compact grammar, with the refinement obligation for TAsyncCompactProtocol<R>. (5) the ITERATIVE skipper of the unchecked binary reader (explicit work stack, fixed-size fast paths via the table BINARY_BASIC_TYPE_FIXED_SIZE), within the documented contract of the unchecked codec (the input holds a complete well-formed value of the type): it returns exactly the size the binary value grammar assigns, advances the cursor by exactly that much, every unchecked read it issues is inside the buffer, and it terminates; the invariant interprets the work stack as a continuation of the recursive grammar (thrift_iskip_spec.rs). Not decided for the unchecked reader: behaviour on malformed input (outside its contract by design); TBinaryUnsafeInputProtocol::skip itself (re-derives the raw-pointer slice) is not extracted'),
     'C09': dict(verus=THRIFT_UNITS + ['skip', 'compact_skip', 'async_skip', 'async_compact_skip', 'appexc', 'async_binary', 'async_binary_le', 'async_compact'], kani=['a3_varint_decode_total', 'rwext_read_i16', 'rwext_read_i32', 'rwext_read_i64', 'rwext_read_u64'], assumptions=A_COMMON,
                 not_covered=NOT_GEN + '; unchecked (unsafe) readers are outside the checked-reader scope of C09'),
-    'C10': dict(verus=['prost'], kani=['pb_varint_decode_total', 'pb_varint_decode_value', 'pb_varint_roundtrip', 'pb_varint_chain'], assumptions=A_COMMON[:1] + ['decode_varint_slice (unsafe, unrolled) enters Verus through an assumed contract (Ok((v, k)) <=> the slice starts with a well-formed varint of value v and length k); Kani pb_varint_decode_total / pb_varint_decode_value prove that statement on the real code for every input of 0..=11 bytes; that longer slices behave like their first 10 bytes is read off the unrolled code, not proved', 'derive(Clone) of DecodeContext replaced by its field-wise expansion; core::cmp::min redirected to a usize wrapper'],
+    'C10': dict(verus=['prost'], kani=['pb_varint_decode_total', 'pb_varint_decode_value', 'pb_varint_roundtrip', 'pb_varint_chain', 'pb_fixed_truncated'], assumptions=A_COMMON[:1] + ['decode_varint_slice (unsafe, unrolled) enters Verus through an assumed contract (Ok((v, k)) <=> the slice starts with a well-formed varint of value v and length k); Kani pb_varint_decode_total / pb_varint_decode_value prove that statement on the real code for every input of 0..=11 bytes; that longer slices behave like their first 10 bytes is read off the unrolled code, not proved', 'derive(Clone) of DecodeContext replaced by its field-wise expansion; core::cmp::min redirected to a usize wrapper'],
                 not_covered='decided: decode_varint (dispatch, slow path loop with the shift-and-or accumulation proved equal to the base-128 value), decode_key, check_wire_type, WireType::try_from, DecodeContext::{enter_recursion,limit_reached}: Ok(v) <=> the input starts with a well-formed varint / key, v is its value, exactly its bytes are consumed; skip_field against a recursive grammar of unknown fields (pskip/pgroup: groups end at the end-group key with the group\'s own field number, nest to the recursion budget, length prefixes larger than the input are rejected): Ok <=> well-formed, consumption exact, terminates with the budget as measure. encoding::bytes::merge (length prefix checked against the input before copy_to_bytes, exact consumption, value replaced by exactly the payload); encoding::group::merge is total (terminates: every iteration consumes a key; wrong wire type or exhausted budget => Err) over an assumed Message::merge_field that never lengthens the buffer. Not decided: that nested messages/groups receive a strictly smaller budget (the callee is emitted code), merge_loop (FnMut closure), string/message/group/map merge, bytes::merge_one_copy (Buf::take), Message::merge_length_delimited, wrappers in types.rs and generated merge_field'),
     'C11': dict(verus=['unsafe_skip', 'unsafe_lb'], kani=K_C11_W + K_C11_R, assumptions=A_COMMON[:1] + [A_LB, 'the documented preconditions of the unchecked codec (window of the reported size; complete well-formed input) are the harness assumptions'],
                 not_covered='decided besides the per-primitive Kani harnesses: the unchecked header readers read_field_begin / read_list_begin / read_set_begin / read_map_begin and the iterative skipper (Verus unit unsafe_skip: values per the binary grammar, cursor advanced by exactly the encoded size, every unchecked read in bounds given a complete well-formed input). The LinkedBytes writer variant is decided only for the order of operations of its zero-copy paths over assumed primitive contracts (unit unsafe_lb). Not decided: its primitives, read_bytes/read_faststr/get_bytes (they re-derive the raw-pointer view of the transport)'),
